@@ -255,6 +255,14 @@ impl Co {
         let gid;
         {
             let mut s = self.lock();
+            if s.gs.len() >= MAX_GOROUTINES {
+                // a runaway spawner: halt the run instead of exhausting OS threads
+                if s.stop.is_none() {
+                    s.stop = Some(Stop::Halted("goroutine budget exhausted".into()));
+                }
+                self.cv.notify_all();
+                return s.gs.len();
+            }
             gid = s.gs.len();
             s.gs.push(G { state: GState::Parked, pending: Pending::Start, parent, spins: 0 });
         }
@@ -315,8 +323,18 @@ impl Co {
                 co.schedule_next(&mut s);
                 co.cv.notify_all();
             })
-            .expect("spawn goroutine thread");
-        self.lock().threads.push(h);
+;
+        match h {
+            Ok(h) => self.lock().threads.push(h),
+            Err(_) => {
+                let mut s = self.lock();
+                if s.stop.is_none() {
+                    s.stop = Some(Stop::Halted("cannot create another goroutine thread".into()));
+                }
+                s.gs[gid].state = GState::Done;
+                self.cv.notify_all();
+            }
+        }
         gid
     }
 }
@@ -493,6 +511,7 @@ pub struct Seeded {
 }
 
 pub const SPIN_LIMIT: u32 = 40;
+pub const MAX_GOROUTINES: usize = 48;
 pub const STEP_NS: u64 = 50;
 
 impl Seeded {
